@@ -13,7 +13,7 @@ from ..runner import new_result, viol, bump, case_seed
 
 PID = 'C15'
 LEVEL = 'exploration'
-MODELS = ['sir', 'sis', 'threshold', 'watts', 'kofn', 'dist2', 'global', 'sirs_mixed', 'lazy']
+MODELS = ['sir', 'sis', 'threshold', 'watts', 'kofn', 'dist2', 'global', 'sirs_mixed', 'lazy', 'seir_econ']
 RULE = ('models: SIR / SIS through this API, fixed-threshold and Watts fractional-threshold contagion, k-of-n, distance-2 influence, global-field '
         'rates (influence set = all nodes), SIRS with heterogeneous non-dyadic rates; graphs n<=12 (e2) and every atlas graph with <=4 nodes (e3, quick; '
         '<=5 thorough); influence sets computed conservatively so the premise of the statement holds.  Non-trivial = >=1 event; distinct = (kind, model, '
@@ -97,6 +97,23 @@ def model(name, params):
                 return 'S' if k % 2 == 0 else 'I'
             return 'I' if k != 2 else 'S'
         return rate, choice, (lambda G, n, s, p=None: list(G.neighbors(n))), ['S', 'I']
+    if name == 'seir_econ':
+        # an economical influence-set function, as the docstring invites ("leave out any nodes that it wouldn't have affected"): it looks at
+        # what the node has just become.  S->E changes nobody's rate (empty set); E->I and I->R change the rates of the susceptible neighbours
+        def rate(G, n, s, p=None):
+            if s[n] == 'E':
+                return b
+            if s[n] == 'I':
+                return 0.6 * b
+            if s[n] == 'S':
+                return a * sum(1 for v in G.neighbors(n) if s[v] == 'I')
+            return 0
+
+        def infl(G, n, s, p=None):
+            if s[n] == 'E':
+                return []
+            return [v for v in G.neighbors(n) if s[v] == 'S']
+        return rate, (lambda G, n, s, p=None: {'S': 'E', 'E': 'I', 'I': 'R'}[s[n]]), infl, ['S', 'E', 'I', 'R']
     raise ValueError(name)
 
 
@@ -112,7 +129,7 @@ def gen_cases(tier, seed):
         m = MODELS[k % len(MODELS)]
         out.append({'kind': 'e2', 'graph': desc, 'model': m, 'params': [r.choice([0.3, 0.7, 1.0, 2.3]), r.choice([0.3, 1.0, 1.9])],
                     'IC': [r.choice([0, 0, 1]) for _ in range(desc['n'])], 'tmin': r.choice([0, -2, 1.5]),
-                    'tmax': r.choice(['inf', 1.0, 3.0]) if m in ('sir', 'threshold', 'watts', 'kofn', 'global') else r.choice([0.5, 1.5]),
+                    'tmax': r.choice(['inf', 1.0, 3.0, 2]) if m in ('sir', 'threshold', 'watts', 'kofn', 'global') else r.choice([0.5, 1.5, 2]),     # span; tmin=-2 with span 2: horizon exactly 0
                     'full': r.random() < 0.5, 'seed': cs, 'infl_form': r.choice(['list', 'tuple', 'set', 'iterator', 'generator', 'dictkeys']),
                     'label_map': r.choice(['str', 'int0', 'rev_int', 'bool', 'emptystr'])})
     nmax = 4 if q else 5
